@@ -175,7 +175,7 @@ prop(
          "a cell = (message shape, honest/deviating sender, kept/banned) / (advance or not, quorum, supporters, deviators)",
     sizes=tiers(16, 400, 60, 16, 30000, 900, min_evals=8000, min_cells=40),
     technique="runtime monitoring: online monotonicity / immutability check of the CheckPointIndex keyspace, reference quorum rule over snapshots of get_all_proved_check_points(), expected-progress rule, ban monitor",
-    level_text="For generated configurations (max outbound 1..8, 1..10 proven peers, honest vectors and vectors deviating from some index on, short / overlapping / gapped / unaligned / one-off-lie messages, all orders of messages and refresh ticks) the final index never decreases, final values are never rewritten, every advance is backed by at least ceil(max_outbound/2) proven peers agreeing on every new index, fewer deviators than the quorum neither finalize a wrong value nor block agreement among at least a quorum of honest peers, and a peer contradicting the final value is banned at the tick that judges it.",
+    level_text="For generated configurations (max outbound 1..8, 1..10 proven peers, honest vectors and vectors deviating from some index on, short / overlapping / gapped / unaligned / one-off-lie messages, all orders of messages and refresh ticks, peers proved in mid-session whose vectors start behind the finalized index, peers leaving, restarts that rebuild Peers from the stored last check point) the final index never decreases, final values are never rewritten, every advance is backed by at least ceil(max_outbound/2) proven peers agreeing on every new index, fewer deviators than the quorum neither finalize a wrong value nor block agreement among at least a quorum of honest peers, and a peer contradicting the final value is banned at the tick that judges it.",
     level_note="peers are brought to the proven state with the cfg(test) helper mock_prove_state (the real handshake is exercised by C05); check point values come from the generated chain's filter hashes",
 )
 
